@@ -66,6 +66,8 @@ _RERR_CODES = [(sb.OFPET_BAD_REQUEST, sb.OFPBRC_BAD_TYPE), (sb.OFPET_BAD_REQUEST
                (sb.OFPET_BAD_REQUEST, sb.OFPBRC_BAD_STAT), (sb.OFPET_BAD_ACTION, 1)]
 
 DPIDS = [0x0000000000000001, 0x00a1b2c3d4e5f607]
+# datapath ids a switch may report: any 64-bit value (OF 1.0: 48-bit MAC + 16 implementer-defined bits), including 0
+DPID_VALUES = [0, 1, 2, 0xffff, 0x0000ffffffffffff, 0x0001000000000000, 0x7fffffffffffffff, 0x8000000000000000, 0xffffffffffffffff, 0x00a1b2c3d4e5f607]
 MAX_CONNS = 3
 
 _W = None
@@ -86,8 +88,9 @@ class _C(object):
 
 
 class _H(object):
-  def __init__(self, out, app=None):
+  def __init__(self, out, app=None, dpids=None):
     self.app = dict(app or {})      # behaviour of the application's listeners (see _rec)
+    self.dpids = list(dpids) if dpids else DPIDS   # the two datapath ids the case's switches report
     self.refreshed = set()          # connections that got a features reply after their handshake during this op
     self.up_obs = []                # what an application sees in the registry while ConnectionUp is delivered
     setup()
@@ -172,7 +175,7 @@ class _H(object):
     c.acts = []
     c.barrier_answered = False
     c.requests = []          # (type, xid, bytes) of what the controller sent during the handshake, in order
-    c.m = self.model.open(DPIDS[d])
+    c.m = self.model.open(self.dpids[d])
     self.cs.append(c)
     self.by_id[id(c.con)] = c
     for n in ("ConnectionUp", "ConnectionDown", "PortStatus"):
@@ -563,7 +566,7 @@ def _check_registry(h, op):
 
 
 def _send_to(h, d, op):
-  dpid = DPIDS[d]
+  dpid = h.dpids[d]
   exp = h.model.registry().get(dpid)
   h.xid_seq += 1
   payload = sb.echo_request(0x60000000 | h.xid_seq, b"to-dpid")
@@ -606,13 +609,15 @@ def run_case(case):
   out = Outcome()
   if case["k"] == "loop":
     out.label("driver:real-OpenFlow_01_Task-loop")
-    h = _HL(out, case.get("app"))
+    h = _HL(out, case.get("app"), case.get("dpids"))
     try:
       _run_loop(h, case["ops"])
     finally:
       h.close()
     return out
-  h = _H(out, case.get("app"))
+  h = _H(out, case.get("app"), case.get("dpids"))
+  if case.get("dpids"):
+    out.label("datapath-ids:" + ("with-zero" if 0 in h.dpids else "with-top-bit" if max(h.dpids) >> 63 else "other"))
   if h.app:
     out.label("app:" + ",".join("%s=%s" % kv for kv in sorted(h.app.items())))
   try:
@@ -630,8 +635,8 @@ class _HL(_H):
 
   app_may_close = False      # (in this driver a closed socket is the sign that the LOOP closed the connection)
 
-  def __init__(self, out, app=None):
-    _H.__init__(self, out, app)
+  def __init__(self, out, app=None, dpids=None):
+    _H.__init__(self, out, app, dpids)
     from ..sim import loops
     self.loop = loops.ControllerLoop(self.w)
 
@@ -1077,6 +1082,33 @@ def enum_down(tier):
       yield {"k": "hist", "ops": ops}
 
 
+def enum_dpid_values(tier):
+  """the lifecycle and registry clauses for every ordered pair of boundary datapath-id values (0, 1, 48-bit and 64-bit
+  extremes, top bit): announce, send, lose, send again; two datapaths; a datapath reconnecting before its old
+  connection closes; core DownEvent -- through the emulated loop and through the real task loop"""
+  up = lambda i: [["m", i, ["hello"]], ["m", i, ["feat"]], ["m", i, ["bar", "right"]]]
+  sends = [["send", 0], ["send", 1]]
+  hists = []
+  for kind in ("eof", "rst", "disc", "sendfail"):
+    hists.append([["open", 0]] + up(0) + sends + _loss_ops(0, kind) + sends + [["poll"]] + sends)
+  hists.append([["open", 0], ["open", 1]] + up(0) + up(1) + sends + [["lose", 0, "eof"]] + sends + [["lose", 1, "rst"]] + sends)
+  hists.append([["open", 1], ["open", 0]] + up(1) + up(0) + sends + [["lose", 1, "eof"]] + sends + [["lose", 0, "eof"]] + sends)
+  hists.append([["open", 0]] + up(0) + sends + [["open", 0]] + up(1) + sends + [["lose", 0, "eof"]] + sends + [["lose", 1, "eof"]] + sends)
+  hists.append([["open", 0]] + up(0) + [["lose", 0, "eof"]] + sends + [["open", 0]] + up(1) + sends + [["lose", 1, "rst"]] + sends)
+  hists.append([["open", 0], ["m", 0, ["hello"]], ["m", 0, ["feat"]], ["lose", 0, "eof"]] + sends + [["open", 0]] + up(1) + sends)
+  hists.append([["open", 0], ["open", 1]] + up(0) + up(1) + sends + [["down"]] + sends + [["lose", 0, "eof"], ["lose", 1, "eof"]] + sends)
+  pairs = [(a, b) for a in DPID_VALUES for b in DPID_VALUES if a != b]
+  if tier == "quick":
+    pairs = [(a, b) for (a, b) in pairs if a in (0, 1, 0xffffffffffffffff, 0x8000000000000000) or b == 0]
+  for a, b in pairs:
+    for ops in hists:
+      yield {"k": "hist", "ops": ops, "dpids": [a, b]}
+    for kind in ("eof", "rst"):
+      lops = [["open", 0], ["m", 0, ["hello"]], ["round", [1, 0, 0]], ["m", 0, ["feat"]], ["round", [1, 0, 0]], ["m", 0, ["bar", "right"]],
+              ["round", [1, 0, 0]], ["send", 0], ["send", 1], ["lose", 0, kind], ["round", [1, 1, 1]], ["send", 0], ["send", 1]]
+      yield {"k": "loop", "ops": lops, "dpids": [a, b]}
+
+
 def enum_loop(tier):
   """histories through the real task loop: every combination of {not reported, readable, exceptional, both} for
   two connections in one select round, with and without data pending, at every stage of the handshake"""
@@ -1369,7 +1401,18 @@ def _history(draw, tier):
   case = {"k": "hist", "ops": ops}
   if draw(st.integers(0, 2)) == 0:
     case["app"] = draw(st.sampled_from(_APPS))
+  _draw_dpids(draw, case)
   return case
+
+
+def _draw_dpids(draw, case):
+  """in a third of the cases the two datapath ids are boundary / arbitrary 64-bit values instead of the fixed pair"""
+  if draw(st.integers(0, 2)) == 0:
+    v = st.one_of(st.sampled_from(DPID_VALUES), st.integers(0, 2 ** 64 - 1))
+    a = draw(v)
+    b = draw(v)
+    if a != b:
+      case["dpids"] = [a, b]
 
 
 @st.composite
@@ -1408,6 +1451,7 @@ def _loop_history(draw, tier):
   case = {"k": "loop", "ops": ops}
   if draw(st.integers(0, 2)) == 0:
     case["app"] = draw(st.sampled_from(_APPS))
+  _draw_dpids(draw, case)
   return case
 
 
@@ -1424,6 +1468,7 @@ def plan(tier):
       Enum("real-task-loop", lambda: enum_loop(tier), shards=2),
       Enum("applications-acting-inside-handlers", lambda: enum_app(tier), shards=4),
       Enum("features-reply-after-the-handshake", lambda: enum_refresh(tier), shards=1),
+      Enum("datapath-id-values", lambda: enum_dpid_values(tier), shards=4),
       Hyp("histories", lambda: _history(tier), examples=4000, shards=16),
       Hyp("real-task-loop-histories", lambda: _loop_history(tier), examples=1000, shards=8),
     ]
